@@ -153,13 +153,21 @@ var c03Placements = []c03Placement{
 	}, 1},
 	{"in-template", func(c string) string { return `<template><b>[pre]</b>` + c + `<b>[post]</b></template>` }, 1},
 	{"no-neighbours", func(c string) string { return c }, 1},
+	// the chain follows a node that is evaluated IN PLACE (<template v-html>) and is the last content of its parent: when the chain renders
+	// nothing, that node is the last evaluated child
+	{"after-inplace-template-tail", func(c string) string {
+		return `<div><b>[pre]</b><template v-html="hv"></template>` + c + `</div><b>[post]</b>`
+	}, 1},
+	{"after-inplace-template-in-vfor", func(c string) string {
+		return `<div v-for="q in two"><b>[pre]</b><section><template v-html="hv"></template>` + c + `</section><b>[post]</b></div>`
+	}, 2},
 }
 
 var c03Seps = []struct{ name, s string }{{"none", ""}, {"ws", "\n  "}, {"comment", "<!-- c -->"}, {"text", " txt "}}
 
 func c03ChainCase(ch c03Chain, pl c03Placement, sep string, sepName string, tag string) *Case {
 	tpl := pl.wrap(ch.markup(sep, tag, ""))
-	d := map[string]any{"two": []any{1, 2}, "yes": true}
+	d := map[string]any{"two": []any{1, 2}, "yes": true, "hv": "<u>raw</u>"}
 	ch.data("", d)
 	files := map[string]string{"p.vuego": tpl}
 	var comps map[string]string
